@@ -432,7 +432,7 @@ def check(cfg, ops, seed, counters):
                     # blocks, not residue of El Torito, as long as both images decode to the same trees
                     # with the same continuation areas (number and lengths) and no boot record.
                     frag_only = False
-                    if len(a) != len(b) and cfg.rr and (len(a) - len(b)) % 2048 == 0:
+                    if cfg.rr and (len(a) - len(b)) % 2048 == 0:
                         da_, db_ = common.decode_all(a), common.decode_all(b)
                         if da_['susp'] is not None and db_['susp'] is not None and da_['susp'].present and db_['susp'].present:
                             def sig_(d):
@@ -440,14 +440,16 @@ def check(cfg, ops, seed, counters):
                                 r = {p: (n.kind, n.mode, n.target, n.nlink) for p, n in d['susp'].logical.items()}
                                 j = {p: (n.kind, n.length) for p, n in d['ecma'].joliet.tree.items()} if d['ecma'].joliet is not None else {}
                                 areas = sorted(e_ - s_ for ent in d['susp'].entries.values() for (s_, e_) in ent.ce_areas)
-                                return t, r, j, areas, sorted(d['ecma'].all_problems()), sorted(d['susp'].problems)
+                                import hashlib as _h
+                                from harness.indep import ecma119 as _e3
+                                img_ = a if d is da_ else b
+                                datas = {p: _h.sha1(_e3.read_file(img_, n)).hexdigest() for p, n in d['ecma'].pvd.tree.items() if n.kind == 'file'}
+                                return t, r, j, areas, datas, sorted(d['ecma'].all_problems()), sorted(d['susp'].problems)
                             nce = lambda d: sum(1 for k_, _i, _s, _e in common.full_extent_map(d) if k_ == 'rr-ce-sector')
                             frag_only = (sig_(da_) == sig_(db_) and not da_['eltorito'].present and not db_['eltorito'].present
                                          and (nce(da_) - nce(db_)) * 2048 == len(a) - len(b))
                             if frag_only:
                                 counters['twin_ce_fragmentation_only'] = counters.get('twin_ce_fragmentation_only', 0) + 1
-                    if len(a) != len(b) and not frag_only:
-                        vio.append({'key': 'rm-residue:size', 'detail': 'after rm_eltorito %d bytes, never-added twin %d bytes' % (len(a), len(b))})
                     found = []
                     for s, e in common.diff_ranges(a, b, limit=6):
                         hit = idx.locate(s)
@@ -468,7 +470,13 @@ def check(cfg, ops, seed, counters):
                         layout_only = sig(da) == sig(db) and not da['eltorito'].present
                         if layout_only:
                             counters['twin_layout_only_diff'] = counters.get('twin_layout_only_diff', 0) + 1
+                    # (file contents are part of the comparison above, so data that merely moved is fine;
+                    # the system area is not described by any tree)
+                    if frag_only and any(k == 'system-area' or (k == 'unmapped' and s_ < 32768) for k, s_, _e in found):
+                        frag_only = False
                     if not layout_only and not frag_only:
+                        if len(a) != len(b):
+                            vio.append({'key': 'rm-residue:size', 'detail': 'after rm_eltorito %d bytes, never-added twin %d bytes' % (len(a), len(b))})
                         for kind, s, e in found:
                             vio.append({'key': 'rm-residue:%s' % kind, 'detail': 'bytes %d..%d differ from the twin that never had El Torito' % (s, e)})
             tw.close()
